@@ -5990,7 +5990,7 @@ class LazyContainer(dict):
         return parseret
 
     def __len__(self):
-        return len(self._struct.subcons)
+        return len(self._struct._subcons)
 
     def get(self, key, default=None):
         # dict.get would read the (empty) underlying dict instead of the lazily parsed members
